@@ -2,6 +2,7 @@ import ZmqVerif.Lemmas.FQProgress
 import ZmqVerif.Lemmas.FQFair
 import ZmqVerif.Lemmas.FQReturns
 import ZmqVerif.Lemmas.FQWaker
+import ZmqVerif.Lemmas.WorldHist
 /-!
 # C06 — a waiting receiver is always woken, and no peer is starved
 
@@ -18,32 +19,32 @@ open Zmq.FQ
 /-- I1 — no lost wake-up (safety form): in every reachable state, a parked receiver that has
 not been notified has its waker published and there is no event in the heap … -/
 theorem C06_I1 (ops : List Op) :
-    let s := ops.foldl step {}
+    let s := ops.foldl FQ.step {}
     s.pc = .parked → s.notified = false → s.heap = [] ∧ s.waker = true :=
   (reachable_inv ops).i1
 
 /-- … and no registered stream has anything to deliver. -/
 theorem C06_parked_means_nothing_ready (ops : List Op) (k : Nat) :
-    let s := ops.foldl step {}
+    let s := ops.foldl FQ.step {}
     s.pc = .parked → s.notified = false → s.reg k = .inMap →
       (s.peer k).q = [] ∧ (s.peer k).closed = false :=
   fun hp hn hr => parked_means_nothing_ready _ (reachable_inv ops) hp hn k hr
 
 /-- I2 — a registered stream that has an item (or EOF) available has exactly one event queued. -/
 theorem C06_I2 (ops : List Op) (k : Nat) :
-    let s := ops.foldl step {}
+    let s := ops.foldl FQ.step {}
     s.reg k = .inMap → ((s.peer k).q ≠ [] ∨ (s.peer k).closed = true) → cnt s.heap k = 1 :=
   fun hr ha => avail_has_event _ (reachable_inv ops) k hr ha
 
 /-- Wake: from any reachable state with the receiver parked and not yet notified, data arriving
 on a registered peer, a registered peer closing, and a new peer being inserted each wake it. -/
 theorem C06_wake (ops : List Op) (k item : Nat) :
-    let s := ops.foldl step {}
+    let s := ops.foldl FQ.step {}
     s.pc = .parked → s.notified = false →
-      (s.reg k = .inMap → (step s (.arrive k item)).wakes = s.wakes + 1 ∧
-                          (step s (.arrive k item)).notified = true) ∧
-      (s.reg k = .inMap → (step s (.close k)).wakes = s.wakes + 1) ∧
-      (s.reg k = .absent → (step s (.insert k)).wakes = s.wakes + 1) := by
+      (s.reg k = .inMap → (FQ.step s (.arrive k item)).wakes = s.wakes + 1 ∧
+                          (FQ.step s (.arrive k item)).notified = true) ∧
+      (s.reg k = .inMap → (FQ.step s (.close k)).wakes = s.wakes + 1) ∧
+      (s.reg k = .absent → (FQ.step s (.insert k)).wakes = s.wakes + 1) := by
   intro s hp hn
   have hinv := reachable_inv ops
   exact ⟨fun hr => wake_on_arrive s hinv hp hn k item hr,
@@ -56,10 +57,10 @@ parked.  Whenever the receiver is parked and not notified, the arrival of data o
 peer (or a new peer) wakes exactly the waker the most recent `poll_next` call was made with —
 never a waker left behind by an earlier call. -/
 theorem C06_wake_latest (ops : List Op) (k item : Nat) :
-    let s := ops.foldl step {}
+    let s := ops.foldl FQ.step {}
     s.pc = .parked → s.notified = false →
-      (s.reg k = .inMap → (step s (.arrive k item)).woken = s.woken ++ [s.polledW]) ∧
-      (s.reg k = .absent → (step s (.insert k)).woken = s.woken ++ [s.polledW]) := by
+      (s.reg k = .inMap → (FQ.step s (.arrive k item)).woken = s.woken ++ [s.polledW]) ∧
+      (s.reg k = .absent → (FQ.step s (.insert k)).woken = s.woken ++ [s.polledW]) := by
   intro s hp hn
   exact ⟨fun hr => wake_latest_on_arrive s (reachable_inv ops) (reachable_pubCur ops) hp hn k item hr,
          fun hr => wake_latest_on_insert s (reachable_inv ops) (reachable_pubCur ops) hp hn k hr⟩
@@ -69,11 +70,11 @@ available, a `recv` that is (re-)polled completes — `Ready` with one more mess
 `3·|heap|` receiver sections, whatever else is queued.  With `C06_wake` this is "a pending or
 subsequently issued recv completes". -/
 theorem C06_progress (ops : List Op) :
-    let s := ops.foldl step {}
+    let s := ops.foldl FQ.step {}
     (s.pc = .idle ∨ s.pc = .parked) → Avail s → s.exhausted = false →
       ∃ n, n ≤ 3 * s.heap.length ∧
-        (recvN n (step s .pollStart)).pc = .idle ∧
-        (recvN n (step s .pollStart)).out.length = s.out.length + 1 :=
+        (recvN n (FQ.step s .pollStart)).pc = .idle ∧
+        (recvN n (FQ.step s .pollStart)).out.length = s.out.length + 1 :=
   fun hpc hav hex => progress _ (reachable_inv ops) hpc hav hex
 
 /-- No spin (finding D17): the executor's cooperative budget can run out in the middle of a
@@ -84,44 +85,44 @@ receiver does not poll it again: it keeps every event, wakes its own waker and r
 (`C06_no_spin`) — the call ends, the executor runs, the budget is refreshed (`exhausted` is reset
 by the return), and `C06_progress` applies to the re-poll. -/
 theorem C06_no_spin (ops : List Op) (t k : Nat) (rest : List (Nat × Nat)) :
-    let s := ops.foldl step {}
+    let s := ops.foldl FQ.step {}
     s.pc = .a → popMin s.heap = some ((t, k), rest) → s.seen.contains k = true →
-      (step s .recvStep).pc = .parked ∧ (step s .recvStep).notified = true ∧
-      (step s .recvStep).wakes = s.wakes + 1 ∧ (step s .recvStep).heap = s.heap ∧
-      (step s .recvStep).exhausted = false := by
+      (FQ.step s .recvStep).pc = .parked ∧ (FQ.step s .recvStep).notified = true ∧
+      (FQ.step s .recvStep).wakes = s.wakes + 1 ∧ (FQ.step s .recvStep).heap = s.heap ∧
+      (FQ.step s .recvStep).exhausted = false := by
   intro s hpc hpop hseen
   have h := no_spin s t k rest hpc hpop hseen
   refine ⟨h.1, h.2.1, h.2.2.1, h.2.2.2, ?_⟩
   have hmem : k ∈ s.seen := by simpa using hseen
-  simp [step, doRecv, hpc, doA, hpop, hmem, yieldNow]
+  simp [FQ.step, doRecv, hpc, doA, hpop, hmem, yieldNow]
 
 /-- Every call returns (finding D17): from ANY reachable state — in the middle of a call, with
 the budget exhausted or not — at most `variant s ≤ 3·|heap| + 3` receiver sections bring the
 receiver to `Ready` (idle) or `Pending` (parked); no environment step is needed for that.  The
 variant counts the queued events of streams that have not yet returned `Pending` in this call. -/
 theorem C06_call_returns (ops : List Op) :
-    let s := ops.foldl step {}
+    let s := ops.foldl FQ.step {}
     ∃ n, n ≤ variant s ∧ ((recvN n s).pc = .idle ∨ (recvN n s).pc = .parked) :=
   poll_returns _ _ (Nat.le_refl _)
 
 /-- … in particular a call that starts now returns within `3·|heap| + 1` sections. -/
 theorem C06_poll_returns (ops : List Op) :
-    let s := ops.foldl step {}
+    let s := ops.foldl FQ.step {}
     (s.pc = .idle ∨ s.pc = .parked) →
       ∃ n, n ≤ 3 * s.heap.length + 1 ∧
-        ((recvN n (step s .pollStart)).pc = .idle ∨ (recvN n (step s .pollStart)).pc = .parked) :=
+        ((recvN n (FQ.step s .pollStart)).pc = .idle ∨ (recvN n (FQ.step s .pollStart)).pc = .parked) :=
   fun h => poll_returns_from_start _ h
 
 /-- The ORIGINAL loop (section A ignoring `seen`) does not have this property: after
 `insert 1; exhaust; poll` it is still inside the same call after any number of rounds. -/
 theorem C06_original_loop_spins (n : Nat) :
-    (recvOldN (3 * n) ([Op.insert 1, .exhaust, .pollStart].foldl step {})).pc = .a :=
+    (recvOldN (3 * n) ([Op.insert 1, .exhaust, .pollStart].foldl FQ.step {})).pc = .a :=
   (old_loop_spins n).1
 
 theorem C06_exhausted_poll (ops : List Op) (t k : Nat) :
-    let s := ops.foldl step {}
+    let s := ops.foldl FQ.step {}
     s.pc = .b t k → s.exhausted = true →
-      let s2 := step (step s .recvStep) .recvStep
+      let s2 := FQ.step (FQ.step s .recvStep) .recvStep
       s2.pc = .a ∧ s2.seen = k :: s.seen ∧ s2.heap = (t, k) :: s.heap :=
   fun hpc hex => exhausted_poll_is_seen _ t k hpc hex
 
@@ -130,27 +131,62 @@ yet handed over), then along ANY continuation of the schedule and until `i` is s
 removed), every other peer `j` is served at most once — so `i` waits for at most `N − 1`
 deliveries, `N` the number of registered peers, independent of how much the others have queued. -/
 theorem C06_fair (pre ops : List Op) (i j : Nat) (hij : i ≠ j)
-    (ho : owed (pre.foldl step {}) i) : countJ i j (pre.foldl step {}) ops ≤ 1 :=
+    (ho : owed (pre.foldl FQ.step {}) i) : countJ i j (pre.foldl FQ.step {}) ops ≤ 1 :=
   fair_from_init pre ops i j hij ho
 
 /-- non-vacuity of `owed`/`Avail`: after `insert 1; arrive 1 7` peer 1 is owed and available -/
-example : owed ([Op.insert 1, .arrive 1 7].foldl step {}) 1 := by
+example : owed ([Op.insert 1, .arrive 1 7].foldl FQ.step {}) 1 := by
   refine ⟨Or.inl (by decide), Or.inl (by decide)⟩
-example : Avail ([Op.insert 1, .arrive 1 7].foldl step {}) := ⟨1, by decide, by decide⟩
+example : Avail ([Op.insert 1, .arrive 1 7].foldl FQ.step {}) := ⟨1, by decide, by decide⟩
 /-- non-vacuity of `C06_no_spin`: one peer with data, budget exhausted before the stream is polled:
 the call ends parked, notified, with the event still queued — and the re-poll delivers -/
-example : let s := [Op.insert 1, .arrive 1 7, .pollStart, .recvStep, .exhaust, .recvStep, .recvStep].foldl step {}
+example : let s := [Op.insert 1, .arrive 1 7, .pollStart, .recvStep, .exhaust, .recvStep, .recvStep].foldl FQ.step {}
     s.pc = .a ∧ s.seen.contains 1 = true ∧ popMin s.heap = some ((0, 1), []) := by decide
 example : let s := [Op.insert 1, .arrive 1 7, .pollStart, .recvStep, .exhaust, .recvStep, .recvStep, .recvStep,
-                    .pollStart, .recvStep, .recvStep, .recvStep].foldl step {}
+                    .pollStart, .recvStep, .recvStep, .recvStep].foldl FQ.step {}
     s.pc = .idle ∧ s.out = [(1, 7)] := by decide
 /-- non-vacuity of `C06_wake_latest`: poll with waker 1 (parks), abandon, poll with waker 2 (parks), data
 arrives: waker 2 is woken, waker 1 is not -/
 example : let s := [Op.insert 1, .setWaker 1, .pollStart, .recvStep, .recvStep, .recvStep, .recvStep,
-                    .setWaker 2, .pollStart, .recvStep, .arrive 1 7].foldl step {}
+                    .setWaker 2, .pollStart, .recvStep, .arrive 1 7].foldl FQ.step {}
     s.woken = [2] := by decide
 /-- non-vacuity of the parked hypothesis: `insert 1; poll` parks un-notified -/
-example : let s := [Op.insert 1, .pollStart, .recvStep, .recvStep, .recvStep, .recvStep].foldl step {}
+example : let s := [Op.insert 1, .pollStart, .recvStep, .recvStep, .recvStep, .recvStep].foldl FQ.step {}
     s.pc = .parked ∧ s.notified = false := by decide
+
+/-! ### socket level (`Model.World`): registering under a key that is still registered; progress -/
+
+open Zmq.W in
+/-- `QueueInner::insert` under a key that may ALREADY be registered (a peer that connects again under
+its configured identity before the old connection's end has been seen): the new stream replaces the
+old one and an event for the key, with the newest ticket, is ALWAYS queued — whatever the old
+stream's state was (parked with an armed waker, queued, never polled).  (The micro-step model above
+takes identities to be unique; this is the statement for the composition the `world` engine runs.) -/
+theorem C06_world_reinsert_queued (s : Socket) (k : Ident) (rd : Rd) :
+    ilookup (fqInsert s k rd).fqStreams k = some rd ∧
+    (s.fqCounter, k) ∈ (fqInsert s k rd).fqHeap ∧
+    (fqInsert s k rd).fqCounter = s.fqCounter + 1 ∧
+    ∀ j, j ≠ k → ilookup (fqInsert s k rd).fqStreams j = ilookup s.fqStreams j :=
+  fqInsert_queued s k rd
+
+open Zmq.W in
+/-- **No lost wake-up at socket level.**  If an event is queued for a registered connection whose
+byte stream holds a complete item, a call of the fair queue's `poll_next` over the framed readers
+does not return `Pending`: it hands out an item (of that connection or of one served before it) or
+reports an error — whatever else is queued: stale events, connections that are `Pending`,
+connections that have ended and whose peers are being forgotten. -/
+theorem C06_world_progress (fuel : Nat) (ps : Pipes) (sid : Nat) (s : Socket) (hpd : PD s.fqStreams)
+    (k : Ident) (rd : Rd) (t : Nat) (hk : ilookup s.fqStreams k = some rd) (hev : (t, k) ∈ s.fqHeap)
+    (hit : rd.items ps ≠ []) (hfuel : s.fqHeap.length < fuel) :
+    ∃ k' r, (fqPoll fuel ps sid s).1 = .got k' r :=
+  fqPoll_progress fuel ps sid s hpd k rd t hk hev hit hfuel
+
+open Zmq.W in
+/-- non-vacuity: after a re-registration the hypotheses of `C06_world_progress` about the queue are
+met by construction (`recv` polls with fuel `heap length + 2`) -/
+example (s : Socket) (k : Ident) (rd : Rd) :
+    (s.fqCounter, k) ∈ (fqInsert s k rd).fqHeap ∧
+    (fqInsert s k rd).fqHeap.length < (fqInsert s k rd).fqHeap.length + 2 :=
+  ⟨(fqInsert_queued s k rd).2.1, by omega⟩
 
 end Zmq.C06
